@@ -58,8 +58,15 @@ func Check(sa flows.SessionAssets, flow flows.Flow, tpls []flows.ExtractedTempla
 		issues = append(issues, i)
 	}
 
-	for _, fn := range RegisteredTypes {
-		fn(sa, flow, tpls, refs, report)
+	// check for each type of issue in a fixed order so that issues on the same node are always in the same order
+	typeNames := make([]string, 0, len(RegisteredTypes))
+	for name := range RegisteredTypes {
+		typeNames = append(typeNames, name)
+	}
+	sort.Strings(typeNames)
+
+	for _, name := range typeNames {
+		RegisteredTypes[name](sa, flow, tpls, refs, report)
 	}
 
 	// sort issues by node order
